@@ -219,6 +219,7 @@ func init() {
 				other: "p", otherR: [][]string{{"admin", "d1", "data1", "read"}}, names: []string{"alice", "bob", "admin", "root"}, domains: []string{"d1", "d2"}},
 		}
 		c05Detours(c)
+		c05FailedReloads(c)
 		for ti, t := range targets {
 			al := c05Alphabet(t)
 			type node struct{ path []mOp }
@@ -345,6 +346,21 @@ e = some(where (p.eft == allow))
 [matchers]
 m = g(r.sub, p.sub) && r.obj == p.obj && r.act == p.act
 `
+
+// reloads rejected while the links are rebuilt: afterwards the role graph still mirrors the
+// (unchanged or changed, whatever is listed) grouping rules
+func c05FailedReloads(c *Ctx) {
+	machFailedReloads(c, "c05", func(id string, m *mach, conf machConf) {
+		t := c05Target{conf: conf, pt: "g", names: []string{"alice", "bob", "carol", "dave", "admin", "staff"}, domains: []string{"d1", "d2"}}
+		if conf.Text == machRBAC.Text {
+			t.domains = nil
+		}
+		fresh := c05FreshLinks(m, t)
+		if got := m.linksKey("g", t.names, t.domains); got != fresh["g"] {
+			c.Direct(id, "after a reload that was rejected while the role links were rebuilt, the role graph answers differently from one rebuilt from GetGroupingPolicy", fmt.Sprintf("content=%v listed=%s live=%s rebuilt=%s", m.A.Content, m.listedKey(), got, fresh["g"]))
+		}
+	})
+}
 
 func c05Probes(c *Ctx) {
 	mk := func(text string) *casbin.Enforcer {
